@@ -51,6 +51,13 @@ CONSTANTS
   TTLPos,       \* results carry a positive TTL (TRUE) or ttl 0 (FALSE)
   D, MaxTime,   \* debounce delay in ticks; last instant
   MaxChanges, MaxUpdates, MaxCalls,
+  GenCheck,     \* repair switch: TRUE = a fill is dropped when the cache was invalidated after the request was issued
+                \* (methodCache.gen / putIfCurrent, f71bafa); FALSE = the behaviour before the repair (unconditional put)
+  ListenOwns,   \* repair switch: TRUE = a finished subscriptions/listen request removes only the list-changed
+                \* subscriptions it registered itself (5eb4542); FALSE = before the repair it removed the session's
+                \* entries from all three maps, whichever listen request had made them
+  ResubRace,    \* environment: a session may subscribe to a URI again while the clean-up of its cancelled listen
+                \* stream for that URI is still pending on the server
   NPages,       \* pages of a feature list (a list call walks them; the cache is keyed by cursor, i.e. by page)
   ModernUnsub,  \* environment: modern sessions may unsubscribe a URI
   ForeignUnsub, \* environment: legacy sessions may unsubscribe a URI they are not subscribed to
@@ -74,7 +81,8 @@ VARIABLES
   chan,     \* session -> FIFO of messages server -> client
   nq,       \* session -> notifications read, waiting for the in-order dispatcher
   hnd,      \* session -> notification being handled: [stage, msg]
-  cache,    \* session -> item -> cached version, -1 = empty
+  cache,    \* session -> item -> page -> cached version, -1 = empty
+  cgen,     \* session -> item -> generation of the method cache holding the item (counts invalidations)
   call,     \* session -> slot -> list/read call
   handled,  \* session -> item -> newest version announced by a notification its user handler has seen
   gates,    \* held gates: <<"inv"|"usr"|"put"|"unsub", session>>
@@ -84,7 +92,7 @@ VARIABLES
   got,      \* ghost: session -> notif -> its user handler saw a notification sent after the last change
   bad       \* ghost: names of the immediate clauses that a send violated
 
-vars == <<now, ver, ref, refDue, orph, cbs, sess, lsub, rsub, usub, pun, chan, nq, hnd, cache, call, handled,
+vars == <<now, ver, ref, refDue, orph, cbs, sess, lsub, rsub, usub, pun, chan, nq, hnd, cache, cgen, call, handled,
           gates, race, budget, ent, got, bad>>
 
 Modern == Sessions \ Legacy
@@ -101,7 +109,7 @@ None == [stage |-> "none", msg |-> <<>>]
 Pages == 1..NPages
 PagesOf(i) == IF i \in Uris THEN {1} ELSE Pages
 NoVal == [p \in Pages |-> -1]
-Idle == [st |-> "idle", item |-> "", page |-> 0, val |-> NoVal, hs |-> -1, hit |-> FALSE]
+Idle == [st |-> "idle", item |-> "", page |-> 0, gen |-> 0, val |-> NoVal, hs |-> -1, hit |-> FALSE]
 OnSessions == {s \in Sessions : sess[s] = "on"}
 
 \* entitlement as the protocol defines it (what the client asked for and was granted), not what the
@@ -125,6 +133,7 @@ Init ==
   /\ nq = [s \in Sessions |-> <<>>]
   /\ hnd = [s \in Sessions |-> None]
   /\ cache = [s \in Sessions |-> [i \in Items |-> NoVal]]
+  /\ cgen = [s \in Sessions |-> [i \in Items |-> 0]]
   /\ call = [s \in Sessions |-> [c \in Slots |-> Idle]]
   /\ handled = [s \in Sessions |-> [i \in Items |-> -1]]
   /\ gates = {}
@@ -176,21 +185,21 @@ DoChange(k) ==
 Change(k) ==
   /\ EnvOK /\ budget.chg < MaxChanges
   /\ DoChange(k)
-  /\ UNCHANGED <<now, orph, cbs, sess, lsub, rsub, usub, pun, chan, nq, hnd, cache, call, handled, gates, race, bad>>
+  /\ UNCHANGED <<now, orph, cbs, sess, lsub, rsub, usub, pun, chan, nq, hnd, cache, cgen, call, handled, gates, race, bad>>
 
 \* the change made at an instant at which a timer is due: it interleaves with TimerFire / CallbackRun
 RaceChange ==
   /\ race # "" /\ SrvOK
   /\ DoChange(race)
   /\ race' = ""
-  /\ UNCHANGED <<now, orph, cbs, sess, lsub, rsub, usub, pun, chan, nq, hnd, cache, call, handled, gates, bad>>
+  /\ UNCHANGED <<now, orph, cbs, sess, lsub, rsub, usub, pun, chan, nq, hnd, cache, cgen, call, handled, gates, bad>>
 
 TimerFire(n) ==
   /\ SrvOK /\ ref[n] = "armed" /\ refDue[n] <= now
   /\ ref' = [ref EXCEPT ![n] = "idle"]
   /\ refDue' = [refDue EXCEPT ![n] = 0]
   /\ cbs' = [cbs EXCEPT ![n] = @ + 1]
-  /\ UNCHANGED <<now, ver, orph, sess, lsub, rsub, usub, pun, chan, nq, hnd, cache, call, handled, gates, race, budget, ent, got, bad>>
+  /\ UNCHANGED <<now, ver, orph, sess, lsub, rsub, usub, pun, chan, nq, hnd, cache, cgen, call, handled, gates, race, budget, ent, got, bad>>
 
 OrphFire(n) ==
   /\ SrvOK
@@ -198,7 +207,7 @@ OrphFire(n) ==
         /\ orph[n][d] > 0 /\ d <= now
         /\ orph' = [orph EXCEPT ![n][d] = @ - 1]
   /\ cbs' = [cbs EXCEPT ![n] = @ + 1]
-  /\ UNCHANGED <<now, ver, ref, refDue, sess, lsub, rsub, usub, pun, chan, nq, hnd, cache, call, handled, gates, race, budget, ent, got, bad>>
+  /\ UNCHANGED <<now, ver, ref, refDue, sess, lsub, rsub, usub, pun, chan, nq, hnd, cache, cgen, call, handled, gates, race, budget, ent, got, bad>>
 
 NMsg(t) == [t |-> "n", topic |-> t, snap |-> ver, slot |-> 0, val |-> 0]
 
@@ -212,7 +221,7 @@ CallbackRun(n) ==
   /\ chan' = [s \in Sessions |-> IF s \in R THEN Append(chan[s], NMsg(n)) ELSE chan[s]]
   /\ bad' = bad \cup (IF \E s \in R : ~EntLC(s, n) THEN {"OnlyEntitled"} ELSE {})
                 \cup (IF ~CapOn(n) /\ R # {} THEN {"NoneWhenDisabled"} ELSE {})
-  /\ UNCHANGED <<now, ver, sess, lsub, rsub, usub, pun, nq, hnd, cache, call, handled, gates, race, budget, ent, got>>
+  /\ UNCHANGED <<now, ver, sess, lsub, rsub, usub, pun, nq, hnd, cache, cgen, call, handled, gates, race, budget, ent, got>>
 
 \* server: ResourceUpdated(u) — the content changed and the server author says so
 Updated(u) ==
@@ -225,7 +234,7 @@ Updated(u) ==
   \* exactly the subscribed sessions; a session whose unsubscribe the server is still processing may get it
   /\ bad' = bad \cup (IF {s \in Sessions : EntUp(s, u)} \subseteq R /\ R \subseteq {s \in Sessions : EntUp(s, u) \/ <<s, u>> \in pun}
                         THEN {} ELSE {"UpdatedExactlySubscribers"})
-  /\ UNCHANGED <<now, ref, refDue, orph, cbs, sess, lsub, rsub, usub, pun, nq, hnd, cache, call, handled, gates, race, ent, got>>
+  /\ UNCHANGED <<now, ref, refDue, orph, cbs, sess, lsub, rsub, usub, pun, nq, hnd, cache, cgen, call, handled, gates, race, ent, got>>
 
 \* ---------------------------------------------------------------------------
 \* sessions
@@ -237,7 +246,7 @@ Connect(s) ==
   /\ sess' = [sess EXCEPT ![s] = "on"]
   /\ lsub' = IF s \in Modern THEN [n \in Notifs |-> IF n \in Want[s] /\ CapOn(n) THEN lsub[n] \cup {s} ELSE lsub[n]]
              ELSE lsub
-  /\ UNCHANGED <<now, ver, ref, refDue, orph, cbs, rsub, usub, pun, chan, nq, hnd, cache, call, handled, gates, race, budget, ent, got, bad>>
+  /\ UNCHANGED <<now, ver, ref, refDue, orph, cbs, rsub, usub, pun, chan, nq, hnd, cache, cgen, call, handled, gates, race, budget, ent, got, bad>>
 
 \* ClientSession.Close, the server notices and runs disconnect (and the listen handlers' clean-up)
 Close(s) ==
@@ -255,14 +264,15 @@ Close(s) ==
                                                      THEN [call[s][c] EXCEPT !.st = "failed"] ELSE call[s][c]]]
   /\ gates' = {g \in gates : g[2] # s}
   /\ ent' = [ent EXCEPT ![s] = [n \in Notifs |-> FALSE]]
-  /\ UNCHANGED <<now, ver, ref, refDue, orph, cbs, cache, handled, race, budget, got, bad>>
+  /\ UNCHANGED <<now, ver, ref, refDue, orph, cbs, cache, cgen, handled, race, budget, got, bad>>
 
 \* resources/subscribe (legacy) or a subscriptions/listen stream for the URI (modern)
 Subscribe(s, u) ==
   /\ EnvOK /\ sess[s] = "on" /\ u \notin usub[s]
+  /\ ResubRace \/ <<s, u>> \notin pun
   /\ usub' = [usub EXCEPT ![s] = @ \cup {u}]
   /\ rsub' = [rsub EXCEPT ![u] = @ \cup {s}]
-  /\ UNCHANGED <<now, ver, ref, refDue, orph, cbs, sess, lsub, pun, chan, nq, hnd, cache, call, handled, gates, race, budget, ent, got, bad>>
+  /\ UNCHANGED <<now, ver, ref, refDue, orph, cbs, sess, lsub, pun, chan, nq, hnd, cache, cgen, call, handled, gates, race, budget, ent, got, bad>>
 
 \* resources/unsubscribe (legacy): the server's handler removes the entry.
 \* Cancellation of the URI's listen stream (modern): ClientSession.Unsubscribe returns at once; the server
@@ -277,43 +287,46 @@ Unsubscribe(s, u) ==
   /\ IF s \in Modern
        THEN pun' = pun \cup {<<s, u>>} /\ UNCHANGED rsub
        ELSE rsub' = [rsub EXCEPT ![u] = @ \ {s}] /\ UNCHANGED pun
-  /\ UNCHANGED <<now, ver, ref, refDue, orph, cbs, sess, lsub, chan, nq, hnd, cache, call, handled, gates, race, budget, ent, got, bad>>
+  /\ UNCHANGED <<now, ver, ref, refDue, orph, cbs, sess, lsub, chan, nq, hnd, cache, cgen, call, handled, gates, race, budget, ent, got, bad>>
 
 \* the cancelled listen handler returns: its deferred clean-up deletes resourceSubscriptions[u][s] — whichever
-\* listen stream owns that entry by now — and, as coded, deletes the session from ALL THREE
-\* *ChangeSubscriptions maps, whichever listen stream registered it there (server.go 1220-1245)
+\* listen stream owns that entry by now.  The list-changed entries of the session belong to its Connect-time
+\* listen request: since 5eb4542 a URI listen leaves them alone (ListenOwns); before, it deleted the session from
+\* ALL THREE *ChangeSubscriptions maps.
 FinishUnsub(s, u) ==
   /\ <<s, u>> \in pun /\ ~Held("unsub", s)
   /\ pun' = pun \ {<<s, u>>}
   /\ rsub' = [rsub EXCEPT ![u] = @ \ {s}]
-  /\ lsub' = [n \in Notifs |-> lsub[n] \ {s}]
-  /\ UNCHANGED <<now, ver, ref, refDue, orph, cbs, sess, usub, chan, nq, hnd, cache, call, handled, gates, race, budget, ent, got, bad>>
+  /\ lsub' = IF ListenOwns THEN lsub ELSE [n \in Notifs |-> lsub[n] \ {s}]
+  /\ UNCHANGED <<now, ver, ref, refDue, orph, cbs, sess, usub, chan, nq, hnd, cache, cgen, call, handled, gates, race, budget, ent, got, bad>>
 
 \* ---------------------------------------------------------------------------
 \* client: list / read calls and the result cache
 
 \* a list call walks the pages in order; a page whose cursor has a live cache entry is taken from the cache
 \* (2026-07-28 sessions, positive ttl), the first one that has not is requested from the server
+SameCache(i, j) == i = j \/ (i \in Uris /\ j \in Uris)
 CacheHit(s, i, p) == s \in Modern /\ TTLPos /\ cache[s][i][p] >= 0
 RECURSIVE Walk(_, _, _, _)
 Walk(s, i, p, val) ==
-  IF p \notin PagesOf(i) THEN [st |-> "done", page |-> p - 1, val |-> val]
+  IF p \notin PagesOf(i) THEN [st |-> "done", page |-> p - 1, gen |-> 0, val |-> val]
   ELSE IF CacheHit(s, i, p) THEN Walk(s, i, p + 1, [val EXCEPT ![p] = cache[s][i][p]])
-  ELSE [st |-> "req", page |-> p, val |-> val]
+  \* the page is requested: the generation of the cache is read before the lookup and travels with the request
+  ELSE [st |-> "req", page |-> p, gen |-> cgen[s][i], val |-> val]
 
 ListStart(s, c, i) ==
   /\ EnvOK /\ sess[s] = "on" /\ call[s][c].st = "idle"
   /\ c > 1 => call[s][c - 1].st # "idle"
   /\ LET w == Walk(s, i, 1, NoVal) IN
-       call' = [call EXCEPT ![s][c] = [st |-> w.st, item |-> i, page |-> w.page, val |-> w.val, hs |-> handled[s][i],
+       call' = [call EXCEPT ![s][c] = [st |-> w.st, item |-> i, page |-> w.page, gen |-> w.gen, val |-> w.val, hs |-> handled[s][i],
                                        hit |-> (w.st = "done")]]
-  /\ UNCHANGED <<now, ver, ref, refDue, orph, cbs, sess, lsub, rsub, usub, pun, chan, nq, hnd, cache, handled, gates, race, budget, ent, got, bad>>
+  /\ UNCHANGED <<now, ver, ref, refDue, orph, cbs, sess, lsub, rsub, usub, pun, chan, nq, hnd, cache, cgen, handled, gates, race, budget, ent, got, bad>>
 
 ServeList(s, c) ==
   /\ call[s][c].st = "req"
   /\ call' = [call EXCEPT ![s][c].st = "sent"]
   /\ chan' = [chan EXCEPT ![s] = Append(@, [t |-> "r", topic |-> "", snap |-> ver, slot |-> c, val |-> ver[call[s][c].item]])]
-  /\ UNCHANGED <<now, ver, ref, refDue, orph, cbs, sess, lsub, rsub, usub, pun, nq, hnd, cache, handled, gates, race, budget, ent, got, bad>>
+  /\ UNCHANGED <<now, ver, ref, refDue, orph, cbs, sess, lsub, rsub, usub, pun, nq, hnd, cache, cgen, handled, gates, race, budget, ent, got, bad>>
 
 \* the client's reader takes the next message off the wire: a notification is queued for the in-order
 \* dispatcher, a response is handed to its caller (ResponseArrives)
@@ -326,7 +339,7 @@ Read(s) ==
                  /\ UNCHANGED call
             ELSE /\ call' = [call EXCEPT ![s][m.slot] = [@ EXCEPT !.st = "arrived", !.val[@.page] = m.val]]
                  /\ UNCHANGED nq
-  /\ UNCHANGED <<now, ver, ref, refDue, orph, cbs, sess, lsub, rsub, usub, pun, hnd, cache, handled, gates, race, budget, ent, got, bad>>
+  /\ UNCHANGED <<now, ver, ref, refDue, orph, cbs, sess, lsub, rsub, usub, pun, hnd, cache, cgen, handled, gates, race, budget, ent, got, bad>>
 
 \* the page is put into the cache under its cursor after the call returned from the middleware chain; the walk
 \* then goes on with the next page (pages other than this one are as they were)
@@ -334,8 +347,11 @@ CachePut(s, c) ==
   LET k == call[s][c]
       w == Walk(s, k.item, k.page + 1, k.val) IN
   /\ k.st = "arrived" /\ ~Held("put", s)
-  /\ call' = [call EXCEPT ![s][c] = [k EXCEPT !.st = w.st, !.page = w.page, !.val = w.val]]
-  /\ cache' = IF s \in Modern THEN [cache EXCEPT ![s][k.item][k.page] = k.val[k.page]] ELSE cache
+  /\ call' = [call EXCEPT ![s][c] = [k EXCEPT !.st = w.st, !.page = w.page, !.gen = w.gen, !.val = w.val]]
+  \* putIfCurrent: a result requested before an invalidation is not cached (it is still returned to the caller)
+  /\ cache' = IF s \in Modern /\ (~GenCheck \/ cgen[s][k.item] = k.gen)
+               THEN [cache EXCEPT ![s][k.item][k.page] = k.val[k.page]] ELSE cache
+  /\ UNCHANGED cgen
   /\ UNCHANGED <<now, ver, ref, refDue, orph, cbs, sess, lsub, rsub, usub, pun, chan, nq, hnd, handled, gates, race, budget, ent, got, bad>>
 
 \* the in-order dispatcher takes the next notification and runs the SDK's handler: first the cache
@@ -345,6 +361,8 @@ Invalidate(s) ==
   /\ hnd' = [hnd EXCEPT ![s] = [stage |-> "inval", msg |-> Head(nq[s])]]
   /\ nq' = [nq EXCEPT ![s] = Tail(@)]
   /\ cache' = [cache EXCEPT ![s] = [i \in Items |-> IF i \in ItemsOf(Head(nq[s]).topic) THEN NoVal ELSE @[i]]]
+  \* invalidate / invalidateKey bump the generation of the method cache (resources/read: one cache for all URIs)
+  /\ cgen' = [cgen EXCEPT ![s] = [i \in Items |-> IF \E j \in ItemsOf(Head(nq[s]).topic) : SameCache(i, j) THEN @[i] + 1 ELSE @[i]]]
   /\ UNCHANGED <<now, ver, ref, refDue, orph, cbs, sess, lsub, rsub, usub, pun, chan, call, handled, gates, race, budget, ent, got, bad>>
 
 \* ... then the user's handler runs
@@ -356,7 +374,7 @@ UserHandler(s) ==
   /\ handled' = [handled EXCEPT ![s] = [i \in Items |-> IF i \in ItemsOf(t) THEN Max(@[i], m.snap[i]) ELSE @[i]]]
   /\ got' = IF t \in Notifs /\ \A k \in KindsOf(t) : m.snap[k] = ver[k]
               THEN [got EXCEPT ![s][t] = TRUE] ELSE got
-  /\ UNCHANGED <<now, ver, ref, refDue, orph, cbs, sess, lsub, rsub, usub, pun, chan, nq, cache, call, gates, race, budget, ent, bad>>
+  /\ UNCHANGED <<now, ver, ref, refDue, orph, cbs, sess, lsub, rsub, usub, pun, chan, nq, cache, cgen, call, gates, race, budget, ent, bad>>
 
 \* ---------------------------------------------------------------------------
 \* environment: time and gates
@@ -365,7 +383,7 @@ Tick ==
   /\ EnvOK /\ now < MaxTime
   /\ \E n \in Notifs : TimerArmed(n)
   /\ now' = now + 1
-  /\ UNCHANGED <<ver, ref, refDue, orph, cbs, sess, lsub, rsub, usub, pun, chan, nq, hnd, cache, call, handled, gates, race, budget, ent, got, bad>>
+  /\ UNCHANGED <<ver, ref, refDue, orph, cbs, sess, lsub, rsub, usub, pun, chan, nq, hnd, cache, cgen, call, handled, gates, race, budget, ent, got, bad>>
 
 \* advance to an instant at which a timer is due and change a feature at that very instant
 TickRace(k) ==
@@ -373,18 +391,18 @@ TickRace(k) ==
   /\ \E n \in Notifs : (ref[n] = "armed" /\ refDue[n] = now + 1) \/ orph[n][now + 1] > 0
   /\ now' = now + 1
   /\ race' = k
-  /\ UNCHANGED <<ver, ref, refDue, orph, cbs, sess, lsub, rsub, usub, pun, chan, nq, hnd, cache, call, handled, gates, budget, ent, got, bad>>
+  /\ UNCHANGED <<ver, ref, refDue, orph, cbs, sess, lsub, rsub, usub, pun, chan, nq, hnd, cache, cgen, call, handled, gates, budget, ent, got, bad>>
 
 Hold(g, s) ==
   /\ Gates /\ EnvOK /\ sess[s] = "on" /\ <<g, s>> \notin gates
   /\ g = "unsub" => s \in Modern
   /\ gates' = gates \cup {<<g, s>>}
-  /\ UNCHANGED <<now, ver, ref, refDue, orph, cbs, sess, lsub, rsub, usub, pun, chan, nq, hnd, cache, call, handled, race, budget, ent, got, bad>>
+  /\ UNCHANGED <<now, ver, ref, refDue, orph, cbs, sess, lsub, rsub, usub, pun, chan, nq, hnd, cache, cgen, call, handled, race, budget, ent, got, bad>>
 
 Release(g, s) ==
   /\ EnvOK /\ <<g, s>> \in gates
   /\ gates' = gates \ {<<g, s>>}
-  /\ UNCHANGED <<now, ver, ref, refDue, orph, cbs, sess, lsub, rsub, usub, pun, chan, nq, hnd, cache, call, handled, race, budget, ent, got, bad>>
+  /\ UNCHANGED <<now, ver, ref, refDue, orph, cbs, sess, lsub, rsub, usub, pun, chan, nq, hnd, cache, cgen, call, handled, race, budget, ent, got, bad>>
 
 SdkNext ==
   \/ \E n \in Notifs : TimerFire(n) \/ OrphFire(n) \/ CallbackRun(n)
